@@ -711,9 +711,37 @@ pub fn c05(rng: &mut Rng, thorough: bool) -> Scenario {
     }
     ops.push(Op::Open(cfg.clone()));
     let commits = rng.range(1, 4);
-    for _ in 0..commits {
+    // pairs of keys (lo < hi) that are ALONE under a trie node (they share 12..60 bits with each other
+    // and with nothing else); one of the two carries a multi-page value.  An overlay deletes it later:
+    // the survivor's leaf moves up to that node, and the seeker that lands there must skip the deleted
+    // key's on-disk entry (an overflow cell) when it looks for the leaf's key
+    let mut pairs: Vec<(Key, Key, bool)> = Vec::new();
+    if rng.chance(1, 2) {
+        for _ in 0..rng.range(1, 5) {
+            let base = rng.key();
+            let l = rng.range(12, 60) as usize;
+            let mut lo = diverge_at(rng, &base, l);
+            let mut hi = lo;
+            crate::util::flip_bit(&mut hi, l);
+            if lo > hi {
+                std::mem::swap(&mut lo, &mut hi);
+            }
+            pairs.push((lo, hi, rng.chance(2, 3)));
+        }
+    }
+    for ci in 0..commits {
         let spec = BatchSpec { size: rng.range(1, if thorough { 600 } else { 150 }) as usize, mix: ValueMix::Small, p_delete: 20, p_read: 0, p_rw: 0, p_existing: 40 };
         let mut batch = gen_batch(rng, &mut kg, &live, &spec);
+        if ci == 0 && !pairs.is_empty() {
+            for (lo, hi, big_is_lo) in &pairs {
+                let big = (*rng.pick(&[1333usize, 2000, 4093, 40000, 70000]), rng.next() % 1_000_000);
+                let small = gen_value(rng, ValueMix::Small);
+                batch.push((*lo, Acc::Write(Some(if *big_is_lo { big } else { small }))));
+                batch.push((*hi, Acc::Write(Some(if *big_is_lo { small } else { big }))));
+            }
+            batch.sort_by(|a, b| a.0.cmp(&b.0));
+            batch.dedup_by(|a, b| a.0 == b.0);
+        }
         if rng.chance(1, 3) {
             // a dense sub-trie so that some paths cross elided pages / the threshold
             let n = rng.range(15, 26) as usize;
@@ -735,11 +763,29 @@ pub fn c05(rng: &mut Rng, thorough: bool) -> Scenario {
         ops.push(Op::Open(cold));
     }
     let mut chain = vec![];
-    if rng.chance(1, 2) {
+    let mut pair_probes: Vec<Key> = Vec::new();
+    if rng.chance(1, 2) || !pairs.is_empty() {
         // layer one or two uncommitted overlays
-        for _ in 0..rng.range(1, 2) {
+        for li in 0..rng.range(1, 2) {
             let spec = BatchSpec { size: rng.range(1, 40) as usize, mix: ValueMix::Small, p_delete: 30, p_read: 0, p_rw: 0, p_existing: 50 };
-            let batch = gen_batch(rng, &mut kg, &live, &spec);
+            let mut batch = gen_batch(rng, &mut kg, &live, &spec);
+            if li == 0 {
+                // the overlay deletes the multi-page member of every pair that is still whole
+                for (lo, hi, big_is_lo) in &pairs {
+                    if live.map.contains_key(lo) && live.map.contains_key(hi) {
+                        let (del, keep) = if *big_is_lo { (*lo, *hi) } else { (*hi, *lo) };
+                        batch.retain(|e| e.0 != del && e.0 != keep);
+                        batch.push((del, Acc::Write(None)));
+                        pair_probes.push(keep);
+                        pair_probes.push(del);
+                        let (d1, d2) = (80 + rng.below(100) as usize, 80 + rng.below(100) as usize);
+                        pair_probes.push(diverge_at(rng, &keep, d1));
+                        pair_probes.push(diverge_at(rng, &del, d2));
+                    }
+                }
+                batch.sort_by(|a, b| a.0.cmp(&b.0));
+                batch.dedup_by(|a, b| a.0 == b.0);
+            }
             live.apply(&batch);
             let (s, c) = (ids.s(), ids.c());
             ops.push(Op::Begin { s, chain: chain.clone(), witness: false });
@@ -761,6 +807,10 @@ pub fn c05(rng: &mut Rng, thorough: bool) -> Scenario {
     }
     for _ in 0..5 {
         ops.push(Op::SProve { s, key: rng.key() });
+    }
+    for k in pair_probes {
+        ops.push(Op::SProve { s, key: k });
+        ops.push(Op::SRead { s, key: k });
     }
     // deleted keys
     for k in live.ever.iter().filter(|k| !live.map.contains_key(*k)).take(10) {
@@ -1400,7 +1450,7 @@ fn page_hash(seed: u64, label: &[u8; 32]) -> u64 {
     twox_hash::xxhash3_64::Hasher::oneshot_with_seed(seed.swap_bytes(), label)
 }
 
-/// A small hash table at high load whose seed is chosen ADVERSARIALLY: the root page and one of its
+/// A small hash table (half full) whose seed is chosen ADVERSARIALLY: the root page and one of its
 /// 64 child pages (both always stored) start their probe walk at the same bucket and carry the same
 /// 7-bit tag, so whichever of the two is allocated second sits behind a bucket that "possibly hits"
 /// (sometimes two pairs).  The history reopens the directory twice: a new handle has to find the
@@ -1408,7 +1458,10 @@ fn page_hash(seed: u64, label: &[u8; 32]) -> u64 {
 /// table size and seed (the specification knows neither).
 pub fn c13_crowded(rng: &mut Rng, _thorough: bool) -> Scenario {
     use nomt_core::page_id::{ChildPageIndex, ROOT_PAGE_ID};
-    let n = *rng.pick(&[72u32, 80, 96, 96, 128, 160]);
+    // powers of two only: the triangular walk reaches every bucket of such a table, so the 65 pages
+    // always fit (in a table of another size a walk covers only part of the buckets and a commit can
+    // legitimately fail with bucket exhaustion well below 100 % load - that is C14's business)
+    let n = *rng.pick(&[128u32, 128, 256]);
     let root_label = ROOT_PAGE_ID.encode();
     let child_labels: Vec<[u8; 32]> = (0..64u8)
         .map(|i| ROOT_PAGE_ID.child_page_id(ChildPageIndex::new(i).unwrap()).unwrap().encode())
